@@ -542,7 +542,7 @@ theorem reconcileAgg_codes {as4Agg : Option Attr} {l : List Attr} {r : Bool × L
       rcases mapFirst_mem _ _ _ _ hm a ha with h1 | ⟨x, hx, hc, hfx⟩
       · exact ⟨a, h1, rfl⟩
       · injection hfx with hfx; subst hfx
-        exact ⟨x, hx, hc⟩
+        exact ⟨x, hx, rfl⟩
     · injection h with h; subst h
       exact fun a ha => ⟨a, ha, rfl⟩
   · injection h with h; subst h
@@ -561,7 +561,7 @@ theorem reconcilePath_codes {as4Path : Option Attr} {l l' : List Attr}
       obtain ⟨p4, _, hfx⟩ := bind_eq_ok hfx
       obtain ⟨m, _, hfx⟩ := bind_eq_ok hfx
       injection hfx with hfx; subst hfx
-      exact ⟨x, hx, hc⟩
+      exact ⟨x, hx, rfl⟩
 
 theorem reconcileAs4_codes {l l' : List Attr} (h : reconcileAs4 l = .ok l') :
     ∀ a ∈ l', ∃ b ∈ l, b.code = a.code := by
@@ -806,13 +806,16 @@ theorem takePrefix_NE (bin : Bytes) : ∀ fuel n pos out, (takePrefix bin fuel n
     intro n pos out
     unfold takePrefix
     split
-    · refine Out.NE_bind (rd8_NE _ _) fun t => Out.NE_bind (rd8_NE _ _) fun c => ?_
-      simp only
+    · refine Out.NE_bind (rd8_NE _ _) fun t => ?_
       split
-      · exact Out.NE_bind (slice_NE _ _ _) fun _ => ih _ _ _
-      · split
+      · refine Out.NE_bind (rd8_NE _ _) fun c => ?_
+        simp only
+        split
         · exact Out.NE_bind (slice_NE _ _ _) fun _ => ih _ _ _
-        · exact Out.NE_bind (slice_NE _ _ _) fun _ => ih _ _ _
+        · split
+          · exact Out.NE_bind (slice_NE _ _ _) fun _ => ih _ _ _
+          · exact Out.NE_bind (slice_NE _ _ _) fun _ => ih _ _ _
+      · exact Out.NE_ok _
     · exact Out.NE_ok _
 
 theorem asPathReconcile_NE (a b : Bytes) : (asPathReconcile a b).NE := by
